@@ -1,6 +1,18 @@
-"""C20 — sleeping and timed waits respect their deadlines (DESIGN.md section 4, C20)."""
-import os, json
-import vlib
+"""C20 — sleeping and timed waits respect their deadlines (DESIGN.md section 4, C20).
+
+Two tiers:
+ * unit tier (build / gen_cases / oracle / judge): one worker, scripted virtual clock, attempt outcomes made
+   deterministic by a helper thread; the deadline arithmetic at every boundary.
+ * library tier (lib_*): generated programs with sleepers, timed lockers and timed joiners next to sibling threads on
+   1-4 workers under the schedule controller (harness/lib_interp.c, case option `clocklog 1`: every clock reading is a
+   scheduling point and a trace event, so other workers run between a reading and the following attempt).  For every
+   timed call of every trace the observed clock readings and attempt outcomes are fed to the extracted model
+   (`nanosleep` / `timed`, order of actions from `nanosleep_ev` / `timed_ev`) and the model's return value, number of
+   readings, number of yields and order of actions are compared with the library's; an independent oracle states the
+   property on the trace; every trace is also replayed through the scheduler-level machine (coq/Machine)."""
+import os, json, re
+import vlib, trace
+import machine_common as mc
 
 NS = 1000000000
 VF = ["Time/TimeModel.v", "Time/TimeProofs.v"]
@@ -171,7 +183,9 @@ def run(ctx):
     if os.path.exists(cp):
         corpus = [l.strip() for l in open(cp) if l.strip() and not l.startswith("#")]
     cases = corpus + gen_cases(ctx, n)
-    return judge(ctx, cases, exe, drv, broken, log)
+    judge(ctx, cases, exe, drv, broken, log)
+    lib_tier(ctx, drv)
+    return ctx.finish(assumptions=ASSUMPTIONS)
 
 
 def judge(ctx, cases, exe, drv, broken, log):
@@ -211,14 +225,816 @@ def judge(ctx, cases, exe, drv, broken, log):
     if broken:
         ctx.violation("proof", "theorem(s) no longer check: " + ", ".join(broken),
                       {"theorem_or_correspondence": ", ".join(broken), "log": getattr(ctx, "proof_log", log[-3000:])}, found=False)
-    return ctx.finish(assumptions=["valid timespec operands without 64-bit overflow (signed overflow is UB in C and not modelled)",
-                                   "clock oracle: the k-th reading of the call is clk k, any valid values"])
+
+
+ASSUMPTIONS = ["valid timespec operands without 64-bit overflow (signed overflow is UB in C and not modelled)",
+               "clock oracle: the k-th reading of the call is clk k, any valid values",
+               "attempt oracle: the outcome of the i-th lock / join attempt is att i, any values (= any environment acting "
+               "between a clock reading and the following attempt, C20_timed_any_environment)"]
+
+
+# ==================================================================================================
+# library tier: controlled runs of the real library (schedule controller, virtual clock with logged readings)
+# ==================================================================================================
+
+EINVAL, EBUSY, ETIMEDOUT = 22, 16, 110
+LIB_IDS = ["clock.read", "yield.enter", "yield.put", "mutex.try.read", "mutex.try.cas", "tryjoin.check"]
+LIB_OUTCOMES = ["sleep=0", "sleep=22", "lock=0", "lock=110", "join=0", "join=16"]
+
+
+class _Prog:
+    """a program under construction: threads, objects, expected final values of the variables"""
+
+    def __init__(self, rng, step):
+        self.r, self.step = rng, step
+        self.threads = {0: []}
+        self.expect = {"x0": 0, "v0": 0}
+        self.objs = ["mc mutex", "x0 var 0", "v0 var 0"]
+        self.nxt = 1
+
+    def new(self):
+        t = self.nxt
+        self.nxt += 1
+        self.threads[t] = []
+        self.expect["v%d" % t] = 0
+        self.objs.append("v%d var 0" % t)
+        return t
+
+    def work(self, T, n, lock=True):
+        """n pieces of sibling work: private adds, yields, a mutex-protected shared counter"""
+        r, ops = self.r, []
+        for _ in range(n):
+            k = r.below(7)
+            if k <= 1:
+                ops.append("add v%d 1" % T)
+                self.expect["v%d" % T] += 1
+            elif k == 2:
+                ops.append("yield")
+            elif k == 3:
+                ops.append("yield %d" % r.below(5))
+            elif k <= 5 and lock:
+                d = r.rng(1, 9)
+                ops += ["lock mc", "add x0 %d" % d, "unlock mc"]
+                self.expect["x0"] += d
+            else:
+                ops.append("nop")
+        return ops
+
+    def sleep_op(self, malformed_ok=True):
+        r, st = self.r, self.step
+        if malformed_ok and r.chance(1, 5):
+            return r.choice(["sleep -1", "sleep -%d" % NS, "sleep 0 %d" % NS, "sleep 0 -1", "sleep -1 5", "sleep 3 1999999999",
+                             "sleep 0 %d" % (NS + 1), "sleep -2 999999999"])
+        if st >= 100000000 and r.chance(1, 6):
+            return "sleep 0 999999999"              # largest valid nanosecond field (a few readings with a coarse clock)
+        return "sleep %d" % r.choice([0, 1, st - 1, st, st + 1, 2 * st, 3 * st, 5 * st, 8 * st, 12 * st, 25 * st, 40 * st])
+
+    def deadline(self):
+        """<ns> [abs]: past, now, a few readings ahead, far ahead"""
+        r, st = self.r, self.step
+        k = r.below(11)
+        if k == 0:
+            return "0 abs"
+        if k <= 3:
+            return "%d abs" % (NS + r.rng(0, 14) * st)
+        if k <= 7:
+            return "%d" % r.choice([0, 1, st, 2 * st, 3 * st, 6 * st, 15 * st])
+        if k <= 8:
+            return "%d" % (50 * st)
+        return "%d" % (10 ** 12)
+
+    def finish_main(self, main, to_join):
+        r = self.r
+        r.shuffle(to_join)
+        for t in to_join:
+            main.append("join %d" % t)
+        for v in sorted(self.expect):
+            main.append("get %s" % v)
+        self.threads[0] = main
+
+
+def lib_gen_sleepers(rng, step):
+    """(a) 1-3 sleepers next to 1-4 siblings; some siblings are created (parent first) by the sleeper itself, so that
+    they sit in ITS worker's run queue while it sleeps"""
+    P = _Prog(rng, step)
+    main, top = [], []
+    roles = ["S"] * rng.rng(1, 3) + ["W"] * rng.rng(1, 4)
+    rng.shuffle(roles)
+    for role in roles:
+        t = P.new()
+        top.append(t)
+        main.append("create %d%s" % (t, " pf" if rng.chance(1, 2) else ""))
+        if role == "W":
+            P.threads[t] = P.work(t, rng.rng(2, 6))
+        else:
+            ops, kids = P.work(t, rng.below(2)), []
+            for _ in range(rng.below(3)):
+                c = P.new()
+                kids.append(c)
+                ops.append("create %d%s" % (c, " pf" if rng.chance(2, 3) else ""))
+                P.threads[c] = P.work(c, rng.rng(1, 4))
+            for _ in range(rng.rng(1, 2)):
+                ops.append(P.sleep_op())
+                ops += P.work(t, rng.below(2))
+            rng.shuffle(kids)
+            ops += ["join %d" % c for c in kids]
+            P.threads[t] = ops
+        if rng.chance(1, 4):
+            main += P.work(0, 1)
+    if rng.chance(1, 3):
+        main.append(P.sleep_op())
+    main += P.work(0, rng.below(3))
+    P.finish_main(main, top)
+    return P
+
+
+def lib_gen_lockers(rng, step):
+    """(b) holders (lock; k steps; unlock) and timed lockers with deadlines in the past, now, a few readings ahead,
+    far ahead; several timed lockers per mutex; blocking lockers queue up (word 2, 4 = free with lockers queued)"""
+    P = _Prog(rng, step)
+    nm = rng.rng(1, 2)
+    P.objs += ["m%d mutex" % j for j in range(nm)]
+    main, top = [], []
+
+    def holder(t):
+        ops = []
+        for _ in range(rng.rng(1, 3)):
+            j = rng.below(nm)
+            ops.append("lock m%d" % j)
+            for _ in range(rng.below(5)):
+                k = rng.below(8)
+                if k <= 2:
+                    ops.append("add v%d 1" % t)
+                    P.expect["v%d" % t] += 1
+                elif k <= 4:
+                    ops.append("yield" if k == 3 else "yield %d" % rng.below(5))
+                elif k == 5:
+                    ops.append("sleep %d" % (rng.rng(1, 3) * step))
+                else:
+                    ops.append("nop")
+            ops.append("unlock m%d" % j)
+            if rng.chance(1, 3):
+                ops.append("yield")
+        return ops
+
+    def locker(t):
+        ops = [rng.choice(["yield", "nop", "yield 1"]) for _ in range(rng.below(3))]
+        for _ in range(rng.rng(1, 2)):
+            j = rng.below(nm)
+            ops.append("timedlock m%d %s" % (j, P.deadline()))
+            if rng.chance(1, 2):
+                k = rng.below(3)
+                if k == 0:
+                    ops.append("add v%d 1" % t)
+                    P.expect["v%d" % t] += 1
+                else:
+                    ops.append("yield")
+            ops.append("unlockif m%d" % j)
+            if rng.chance(1, 3):
+                ops += P.work(t, 1)
+        return ops
+
+    roles = ["H"] * rng.rng(1, 3) + ["L"] * rng.rng(1, 3)
+    rng.shuffle(roles)
+    for role in roles:
+        t = P.new()
+        top.append(t)
+        main.append("create %d%s" % (t, " pf" if rng.chance(1, 2) else ""))
+        P.threads[t] = holder(t) if role == "H" else locker(t)
+    if rng.chance(1, 2):
+        main += holder(0) if rng.chance(1, 2) else locker(0)
+    P.finish_main(main, top)
+    return P
+
+
+def lib_gen_joiners(rng, step):
+    """(c) targets that finish after k steps (or at once, or long before the join) and timed joiners with the same
+    range of deadlines; `timedjoinj` = one timedjoin, then a blocking join if it timed out; `timedjoinw` = repeat"""
+    P = _Prog(rng, step)
+    main, top = [], []
+
+    def join_op(t):
+        if rng.chance(1, 4):
+            return "timedjoinw %d %d" % (t, rng.choice([2, 4, 9]) * step)
+        return "timedjoinj %d %s" % (t, P.deadline())
+
+    def delay(T):
+        k = rng.below(5)
+        if k == 0:
+            return []
+        if k == 1:
+            return [P.sleep_op(False)]
+        return [rng.choice(["yield", "yield 1", "nop", "yield 2"]) for _ in range(rng.rng(1, 4))]
+
+    mine = []
+    for _ in range(rng.rng(1, 3)):
+        t = P.new()
+        main.append("create %d%s" % (t, " pf" if rng.chance(1, 2) else ""))
+        P.threads[t] = P.work(t, rng.choice([0, 0, 1, 2, 4, 7]))
+        if rng.chance(1, 2):
+            mine.append(t)                       # main is the timed joiner of t
+        else:
+            j = P.new()                           # a sibling created afterwards is
+            top.append(j)
+            main.append("create %d%s" % (j, " pf" if rng.chance(1, 2) else ""))
+            P.threads[j] = delay(j) + [join_op(t)] + P.work(j, rng.below(2))
+    for _ in range(rng.below(3)):                 # bystanders
+        t = P.new()
+        top.append(t)
+        main.append("create %d%s" % (t, " pf" if rng.chance(1, 2) else ""))
+        P.threads[t] = P.work(t, rng.rng(1, 4))
+    rng.shuffle(mine)
+    for t in mine:
+        main += delay(0) + [join_op(t)]
+    P.finish_main(main, top)
+    return P
+
+
+def lib_gen_case(rng, family=None, pswitch=None, workers=None):
+    family = family or rng.choice(["sleep", "lock", "join"])
+    step = rng.choice([1000, 1000, 1000, 1000, 1000, 7, 250000000, 333333333])
+    P = {"sleep": lib_gen_sleepers, "lock": lib_gen_lockers, "join": lib_gen_joiners}[family](rng, step)
+    workers = workers or rng.rng(1, 4)
+    pswitch = pswitch or rng.choice([20, 35, 60, 85])
+    text = trace.case_text(workers, rng.rng(1, 1 << 30), P.objs, P.threads, pswitch=pswitch, maxsteps=120000,
+                           extra={"msnap": "1", "clockstep": str(step), "clocklog": "1"})
+    return {"text": text, "family": family, "workers": workers, "pswitch": pswitch, "step": step, "expect": P.expect}
+
+
+# --------------------------------------------------------------------------------------------------
+# reading the timed calls off a trace
+# --------------------------------------------------------------------------------------------------
+
+_MS = re.compile(r"M cur=\[(.*?)\] dq=\[(.*)\]$")
+_ST = re.compile(r"state=(-?\d+)")
+_TS = re.compile(r"\bst=(-?\d+)")
+
+
+def _dq(mline, w):
+    m = _MS.match(mline or "")
+    if not m:
+        return None
+    dqs = re.findall(r"\[([^\[\]]*)\]", m.group(2))
+    return dqs[w].split() if w < len(dqs) else None
+
+
+def _tdiv(a, b):
+    """C division / remainder (truncation toward zero)"""
+    q = abs(a) // b
+    q = q if a >= 0 else -q
+    return q, a - q * b
+
+
+def lib_calls(case, r):
+    """the timed calls of one run, with everything each of them did, in trace order.  Returns (calls, facts):
+    call = {kind: sleep|lock|join, T, obj, args, deadline, req, reads [(line, ns)], attempts [(line, ok, detail)],
+            yields [(line, worker, run queue at that line, who ran next on the worker)], seq 'RAY..', ret, extra, anomalies,
+            pre [(line of reading, line of attempt, preempted?, outcome changed in between?)]}"""
+    L = mc._lines(r["trace_text"])
+    nxt, last = {}, {}
+    for i in range(len(L) - 1, -1, -1):
+        nxt[i] = last.get(L[i][1])
+        last[L[i][1]] = i
+    stack, calls = {}, []
+    lockbit = {}                       # mutex -> lock bit after the latest access
+    fin = {}                           # thread -> line of its finish.cb.ready2 (status >= FREE_READY from there on)
+    ids = {}
+    gets, rets = {}, []
+    for i, (k, w, actor, words, snap, ms, raw) in enumerate(L):
+        T = int(actor[1:]) if actor[:1] in "tc" and actor[1:].isdigit() else None
+        inm = actor[:1] == "t"
+        if k in "PE":
+            ids[words[0]] = ids.get(words[0], 0) + 1
+        if k == "C" and T is not None:
+            fr = {"op": words[0], "args": words, "T": T, "i0": i, "kind": None}
+            if words[0] == "sleep":
+                fr["kind"] = "sleep"
+                if len(words) > 2:
+                    fr["req"] = (int(words[1]), int(words[2]))
+                else:
+                    fr["req"] = _tdiv(int(words[1]), NS)
+            elif words[0] == "timedlock":
+                fr["kind"], fr["obj"] = "lock", words[1]
+            elif words[0] == "timedjoin":
+                fr["kind"], fr["obj"] = "join", int(words[1])
+                fr["fin_before"] = fin.get(int(words[1])) is not None
+            if fr["kind"]:
+                fr.update({"deadline": None, "reads": [], "tries": [], "yields": [], "seq": [], "ret": None, "anomalies": [],
+                           "w0": w})
+            stack.setdefault(T, []).append(fr)
+            continue
+        top = stack[T][-1] if T is not None and stack.get(T) else None
+        tc = top if top and top["kind"] else None
+        if k == "R" and T is not None:
+            if stack.get(T):
+                fr = stack[T].pop()
+                ret = int(words[1]) if len(words) > 1 and re.fullmatch(r"-?\d+", words[1]) else None
+                ex = dict(x.split("=", 1) for x in words[2:] if "=" in x)
+                if fr["kind"]:
+                    fr["ret"], fr["extra"], fr["i1"] = ret, ex, i
+                    calls.append(fr)
+                elif fr["op"] == "get" and T == 0:
+                    gets[fr["args"][1]] = ret
+                elif fr["op"] in ("lock", "unlock", "join", "create"):
+                    rets.append((fr["op"], fr["args"], ret, ex, raw))
+            continue
+        if k == "E":
+            eid = words[0]
+            if eid == "clock.deadline" and tc is not None:
+                tc["deadline"] = int(words[2])
+            elif eid == "clock.read":
+                if tc is not None and inm:
+                    tc["reads"].append((i, int(words[2])))
+                    tc.setdefault("read_dq", {})[i] = _dq(ms, w)
+                    tc["seq"].append((i, "R"))
+                else:
+                    calls.append({"kind": "stray", "T": T, "i0": i, "anomalies": ["clock reading outside a timed call: " + raw]})
+            elif eid == "yield.enter" and tc is not None and inm:
+                # who runs next on this worker: skip the scheduler ('-') and the yielder's own callback
+                j, nx = nxt.get(i), None
+                while j is not None:
+                    a = L[j][2]
+                    if a not in ("-", "t-", "c%d" % T):
+                        nx = a
+                        break
+                    j = nxt.get(j)
+                tc["yields"].append((i, w, _dq(ms, w), nx))
+                tc["seq"].append((i, "Y"))
+            continue
+        if k == "P":
+            pid, obj = words[0], words[1]
+            stm = _ST.search(snap or "")
+            if pid.startswith("mutex.") and stm:
+                s = int(stm.group(1))
+                val = words[2]
+                okcas = re.fullmatch(r"-?\d+", val) is not None and int(val) == s
+                b = s & 1
+                if pid in ("mutex.try.cas", "mutex.lock.cas1") and okcas:
+                    b = 1
+                elif (pid == "mutex.unlock.cas1" and okcas) or pid == "mutex.clearbit":
+                    b = 0
+                lockbit[obj] = b
+                if tc is not None and tc["kind"] == "lock" and inm and obj == tc["obj"] and pid in ("mutex.try.read", "mutex.try.cas"):
+                    tc["tries"].append((i, pid, s, okcas))
+            elif pid == "finish.cb.ready2" and obj[:1] == "t" and obj[1:].isdigit():
+                fin[int(obj[1:])] = i
+            elif pid == "tryjoin.check" and tc is not None and tc["kind"] == "join" and inm and obj == "t%d" % tc["obj"]:
+                m = _TS.search(snap or "")
+                tc["tries"].append((i, pid, int(m.group(1)) if m else -1, None))
+    # ---- attempts, order of actions, preemption between reading and attempt
+    for c in calls:
+        if c["kind"] not in ("lock", "join"):
+            continue
+        att = []
+        if c["kind"] == "join":
+            att = [(i, st >= 2, "st=%d" % st) for (i, _, st, _) in c["tries"]]
+        else:
+            start = None
+            for (i, pid, s, okcas) in c["tries"]:
+                if pid == "mutex.try.read":
+                    if start is None:
+                        start = i
+                    if s & 1:
+                        att.append((start, False, "word %d" % s))
+                        start = None
+                else:
+                    if start is None:
+                        c["anomalies"].append("mutex.try.cas without a preceding read")
+                        start = i
+                    if okcas:
+                        att.append((start, True, "word %d" % s))
+                        start = None
+            if start is not None:
+                c["anomalies"].append("attempt still open at the end of the call")
+        c["attempts"] = att
+        c["seq"] += [(i, "A") for (i, _, _) in att]
+        pre = []
+        obj = c["obj"]
+        for (ia, ok, _) in att:
+            rd = [ir for (ir, _) in c["reads"] if ir < ia]
+            if not rd:
+                continue
+            ir = rd[-1]
+            if any(ir < iy < ia for (iy, _, _, _) in c["yields"]):
+                continue
+            w = L[ia][1]
+            preempted = any(L[j][1] != w for j in range(ir + 1, ia))
+            if c["kind"] == "lock":
+                changed = ir < bitchange_at(L, obj, ir, ia)
+            else:
+                changed = fin.get(obj) is not None and ir < fin[obj] < ia
+            pre.append((ir, ia, preempted, changed))
+        c["pre"] = pre
+    for c in calls:
+        if "seq" in c:
+            c["seq"] = "".join(x for _, x in sorted(c["seq"]))
+    return calls, {"ids": ids, "gets": gets, "rets": rets, "lines": len(L), "fin": fin, "L": L}
+
+
+def bitchange_at(L, obj, lo, hi):
+    """line (lo < line < hi) at which the lock bit of mutex obj changed, else -1"""
+    for j in range(lo + 1, hi):
+        k, w, actor, words, snap, ms, raw = L[j]
+        if k != "P" or len(words) < 3 or words[1] != obj or not words[0].startswith("mutex."):
+            continue
+        stm = _ST.search(snap or "")
+        if not stm:
+            continue
+        s = int(stm.group(1))
+        okcas = re.fullmatch(r"-?\d+", words[2]) is not None and int(words[2]) == s
+        if (words[0] in ("mutex.try.cas", "mutex.lock.cas1", "mutex.unlock.cas1") and okcas) or words[0] == "mutex.clearbit":
+            return j
+    return -1
+
+
+# --------------------------------------------------------------------------------------------------
+# independent oracle of the property on one run (plain statement on the trace; the model is not involved)
+# --------------------------------------------------------------------------------------------------
+
+def lib_oracle(case, r, calls, facts):
+    """list of messages; empty = the property holds on this run"""
+    bad = []
+    v = r["verdict"] or ""
+    L = facts["L"]
+    for c in calls:
+        T = c["T"]
+        for a in c.get("anomalies", []):
+            if c["kind"] == "stray":
+                bad.append(a)
+        if c["kind"] == "stray":
+            continue
+        name = "t%d %s" % (T, " ".join(c["args"]))
+        ret, reads = c["ret"], [ns for _, ns in c["reads"]]
+        # ---- other runnable threads use the worker: a yield with a non-empty own run queue hands the worker over
+        for (iy, w, dq, nx) in c["yields"]:
+            if dq and nx == "t%d" % T:
+                bad.append("%s: yielded on worker %d whose run queue held [%s] but kept the worker (line %d)" % (
+                    name, w, " ".join(dq), iy + 1))
+        if c["kind"] == "sleep":
+            sec, nsec = c["req"]
+            malformed = sec < 0 or nsec < 0 or nsec > 999999999
+            if malformed:
+                if ret != EINVAL:
+                    bad.append("%s: malformed duration (%d s, %d ns) not rejected with EINVAL (returned %s)" % (name, sec, nsec, ret))
+                elif reads or c["yields"]:
+                    bad.append("%s: malformed duration rejected only after %d clock reading(s)" % (name, len(reads)))
+                continue
+            if ret != 0:
+                bad.append("%s: valid duration, returned %s" % (name, ret))
+                continue
+            req = sec * NS + nsec
+            if len(reads) < 2 or not reads[-1] > reads[0] + req:
+                bad.append("%s: returned 0 early: first reading %s, last reading %s, requested %d ns (the last reading must be "
+                           "strictly later than first + request)" % (name, reads[:1], reads[-1:], req))
+            # polls k and k+1 (k >= 1) are separated by a yield: no busy polling
+            seq = c["seq"]
+            pos = [j for j, x in enumerate(seq) if x == "R"]
+            waiting = sorted(set(t for q in c.get("read_dq", {}).values() for t in (q or [])))
+            for a, b in zip(pos[1:], pos[2:]):
+                if "Y" not in seq[a:b]:
+                    bad.append("%s: two consecutive clock polls without a yield in between (actions %s): the sleeper keeps the "
+                               "worker to itself%s" % (name, seq, " while [%s] waited in its run queue" % " ".join(waiting) if waiting else ""))
+                    break
+            continue
+        # ---- timed lock / timed join
+        to = ETIMEDOUT if c["kind"] == "lock" else EBUSY
+        what = "the mutex free" if c["kind"] == "lock" else "the target finished"
+        att = c["attempts"]
+        D = c["deadline"]
+        if ret not in (0, to):
+            bad.append("%s: returned %s (neither 0 nor %d)" % (name, ret, to))
+            continue
+        okat = [j for j, (_, ok, _) in enumerate(att) if ok]
+        if ret == to:
+            if okat:
+                bad.append("%s: returned the timeout code %d although attempt %d found %s (%s)%s" % (
+                    name, to, okat[0], what, att[okat[0]][2], " - and the mutex stays locked" if c["kind"] == "lock" else ""))
+            if D is not None and (not reads or reads[-1] < D):
+                bad.append("%s: timeout reported before the deadline: last clock reading %s, deadline %d" % (name, reads[-1:], D))
+            if not att:
+                avail = (c["kind"] == "join" and c.get("fin_before")) or \
+                        (c["kind"] == "lock" and _free_throughout(L, c["obj"], c["i0"], c["i1"]))
+                if avail:
+                    bad.append("%s: timeout reported without a single attempt although %s before the call began" % (name, what))
+        else:
+            if not okat:
+                bad.append("%s: returned 0 although no attempt found %s" % (name, what))
+            elif okat[0] != len(att) - 1:
+                bad.append("%s: attempt %d found %s but the call went on (%d attempts)" % (name, okat[0], what, len(att)))
+            if c["kind"] == "lock" and c["extra"].get("occ") != "1":
+                bad.append("%s: acquired the mutex with occupancy %s" % (name, c["extra"].get("occ")))
+            if c["kind"] == "join" and c["extra"].get("val") != str(1000 + c["obj"]):
+                bad.append("%s: joined value %s, the target returned %d" % (name, c["extra"].get("val"), 1000 + c["obj"]))
+        # every polling iteration (the actions between two yields) that reads the clock before the deadline also makes an
+        # attempt - judged only where the chance is known independently: the lock bit was clear when the poller yielded
+        if c["kind"] == "lock" and D is not None:
+            seq = sorted([(i, "R", ns) for i, ns in c["reads"]] + [(i, "A", None) for i, _, _ in att] +
+                         [(i, "Y", None) for i, _, _, _ in c["yields"]])
+            tried, rd = False, None
+            for (i, x, ns) in seq:
+                if x == "A":
+                    tried = True
+                elif x == "R" and ns <= D:
+                    rd = ns
+                elif x == "Y":
+                    if rd is not None and not tried and _bit_at(L, c["obj"], i) == 0:
+                        bad.append("%s: the polling iteration with reading %d (deadline %d) made no attempt, and the mutex was free "
+                                   "when the poller yielded" % (name, rd, D))
+                        break
+                    tried, rd = False, None
+    if r["rc"] != 0 or not v.startswith("DONE"):
+        what = "step limit reached: the run does not end (a thread is starved or polls forever)" if v.startswith("LIMIT") else \
+               "the run ends in a deadlock (threads blocked for ever)" if v.startswith("DEADLOCK") else "run did not complete"
+        bad.append("%s (%s, rc=%s) %s" % (what, v[:120] or "no verdict", r["rc"], (r.get("out") or "")[-160:].strip()))
+    for var, exp in case["expect"].items():
+        if v.startswith("DONE") and facts["gets"].get(var) != exp:
+            bad.append("sibling work lost: final %s = %s, the program adds %d" % (var, facts["gets"].get(var), exp))
+    for op, args, ret, ex, raw in facts["rets"]:
+        if ret != 0:
+            bad.append("%s returned %s (%s)" % (" ".join(args), ret, raw[:60]))
+        if op == "lock" and ex.get("occ") not in (None, "1"):
+            bad.append("mutual exclusion broken: %s" % raw[:80])
+        if op == "join" and ex.get("val") != str(1000 + int(args[1])):
+            bad.append("join %s: value %s" % (args[1], ex.get("val")))
+    return bad
+
+
+def _bit_at(L, obj, line):
+    """lock bit of mutex obj after the latest access before `line` (0 if it was never touched)"""
+    for j in range(line - 1, -1, -1):
+        k, w, actor, words, snap, ms, raw = L[j]
+        if k == "P" and len(words) >= 3 and words[1] == obj and words[0].startswith("mutex."):
+            stm = _ST.search(snap or "")
+            if not stm:
+                continue
+            s = int(stm.group(1))
+            okcas = re.fullmatch(r"-?\d+", words[2]) is not None and int(words[2]) == s
+            if words[0] in ("mutex.try.cas", "mutex.lock.cas1") and okcas:
+                return 1
+            if (words[0] == "mutex.unlock.cas1" and okcas) or words[0] == "mutex.clearbit":
+                return 0
+            return s & 1
+    return 0
+
+
+def _free_throughout(L, obj, lo, hi):
+    """the lock bit of mutex obj is clear at every line lo..hi"""
+    return _bit_at(L, obj, lo + 1) == 0 and bitchange_at(L, obj, lo, hi) < 0
+
+
+# --------------------------------------------------------------------------------------------------
+# correspondence: the extracted model on the observed readings and attempt outcomes
+# --------------------------------------------------------------------------------------------------
+
+def lib_model_lines(calls):
+    """(driver input line, implementation line) per completed timed call"""
+    out = []
+    for c in calls:
+        if c["kind"] not in ("sleep", "lock", "join") or c["ret"] is None:
+            continue
+        clk = "%d %s" % (len(c["reads"]), " ".join("%d %d" % (ns // NS, ns % NS) for _, ns in c["reads"]))
+        if c["kind"] == "sleep":
+            inp = "libsleep %d %d %s" % (c["req"][0], c["req"][1], clk)
+        else:
+            if c["deadline"] is None or c["deadline"] < 0:
+                continue
+            att = c["attempts"]
+            inp = "libtimed %s %d %d %d %s %s" % (c["kind"], c["deadline"] // NS, c["deadline"] % NS, len(att),
+                                                  " ".join("1" if ok else "0" for _, ok, _ in att), clk)
+        impl = "ret %d reads %d yields %d ev %s" % (c["ret"], len(c["reads"]), len(c["yields"]), c["seq"] or "-")
+        out.append((" ".join(inp.split()), impl, c))
+    return out
+
+
+def lib_run(ctx, exe, mdrv, drv, cases, wd, tag):
+    """run the cases; returns per-run results with calls, oracle messages, model disagreements, machine verdict"""
+    res, blocks, lines = [], [], []
+    for i, c in enumerate(cases):
+        try:
+            r = trace.run_case(exe, c["text"], wd, "%s%04d" % (tag, i), timeout=60)
+        except (IndexError, ValueError) as ex:
+            r = {"rc": -1, "out": "trace unusable: %r" % (ex,), "events": [], "verdict": None, "trace_text": "",
+                 "trace_path": os.path.join(wd, "%s%04d.trace" % (tag, i))}
+        try:
+            calls, facts = lib_calls(c, r)
+            msgs = lib_oracle(c, r, calls, facts)
+        except Exception as ex:                                    # noqa: a cut trace of a crashed library
+            calls, facts = [], {"ids": {}, "gets": {}, "rets": [], "lines": 0, "fin": {}, "L": []}
+            msgs = ["trace of the run cannot be analysed (%s: %s); verdict %s rc %s" % (type(ex).__name__, str(ex)[:80],
+                                                                                        r["verdict"], r["rc"])]
+        ml = lib_model_lines(calls)
+        try:
+            b = mc.machine_block(c["text"], r["trace_text"])
+        except Exception as ex:                                    # noqa
+            b = (["begin 1 1", "snap ?", "end"], [None, None, None], [])
+        blocks.append(b)
+        res.append({"case": c, "r": r, "calls": calls, "facts": facts, "oracle": msgs, "mlines": ml, "lo": len(lines)})
+        lines += [x[0] for x in ml]
+    model, rc, raw = vlib.run_lines([drv], lines) if lines else ([], 0, "")
+    for x in res:
+        x["dis"] = []
+        for j, (inp, impl, c) in enumerate(x["mlines"]):
+            m = model[x["lo"] + j] if x["lo"] + j < len(model) else "<no output>"
+            if m != impl:
+                x["dis"].append({"call": "t%d %s" % (c["T"], " ".join(c["args"])), "input": inp, "library": impl,
+                                 "model": m if len(m) < 120 else m[:117] + "..."})
+    mres = mc.validate(mdrv, blocks) if blocks else []
+    for x, b, m in zip(res, blocks, mres):
+        x["machine"] = m
+        x["putbase"] = sum(1 for l in b[0] if l.endswith("PutBase"))
+        if not m.startswith("ok"):
+            k = int(m.split()[1]) if len(m.split()) > 1 and m.split()[1].isdigit() else 0
+            x["machine_tail"] = b[0][max(0, k - 8):k + 1]
+    return res
+
+
+def lib_tier(ctx, drv):
+    exe0 = trace.build_interp()
+    exe = os.path.join(ctx.dir, "lib_interp")           # private copy: the shared cache is pruned by concurrent checks
+    import shutil
+    shutil.copyfile(exe0, exe + ".tmp")
+    os.chmod(exe + ".tmp", 0o755)
+    os.replace(exe + ".tmp", exe)
+    mdrv = mc.build_driver()
+    wd = os.path.join(ctx.dir, "lib_runs")
+    n = 150 if not ctx.thorough else 1500
+    cases = []
+    corp = os.path.join(vlib.VERIF, "corpus", "C20", "lib")
+    if os.path.isdir(corp):
+        for f in sorted(os.listdir(corp)):
+            if f.endswith(".json"):
+                cases.append(json.load(open(os.path.join(corp, f))))
+    ncorp = len(cases)
+    fams = ["sleep", "lock", "join"]
+    cases += [lib_gen_case(ctx.rng, fams[i % 3]) for i in range(n)]
+    res = lib_run(ctx, exe, mdrv, drv, cases, wd, "l")
+    st = lib_stats(res)
+    st["corpus_cases"] = ncorp
+    fails = [x for x in res if x["oracle"]]
+    dis = [x for x in res if x["dis"]]
+    mfail = [x for x in res if not x["machine"].startswith("ok")]
+    missing = [i for i in LIB_IDS if not st["ids"].get(i)] + [o for o in LIB_OUTCOMES if not st["outcomes"].get(o)]
+    if not st["attempts_preempted_after_reading"]:
+        missing.append("a preemption between a clock reading and the following attempt")
+    if not st["yields_with_nonempty_run_queue"]:
+        missing.append("a yield of a sleeping / polling thread with a non-empty run queue")
+    st["not_reached"] = missing
+    ctx.cov["correspondence"]["library"] = st
+    ctx.cov["evaluations"] = ctx.cov.get("evaluations", 0) + st["trace_lines"]
+    for i in (0, 1, 2):
+        if i < len(res):
+            x = res[ncorp + i] if ncorp + i < len(res) else res[i]
+            ctx.cov["samples"].append({"library_case": x["case"]["text"], "verdict": x["r"]["verdict"],
+                                       "timed_calls": [{"call": " ".join(c["args"]), "ret": c["ret"], "readings": [ns for _, ns in c["reads"]],
+                                                        "deadline": c.get("deadline"), "actions": c["seq"]}
+                                                       for c in x["calls"] if c["kind"] != "stray"][:6],
+                                       "model_disagreements": x["dis"], "machine": x["machine"]})
+    ctx.cov["trusted_base"] += [
+        "library tier: harness/lib_interp.c (schedule controller; virtual clock 1 s + readings * clockstep; `clocklog 1`: a reading is a "
+        "scheduling point and a clock.read line; clock.deadline line), tools/trace.py, tools/machine_common.py + ocaml/driver_Machine.ml",
+        "library tier, modelled not verified: what the other threads do between two actions of a timed call is arbitrary in the model "
+        "(clk, att are arbitrary functions); sequential consistency of the mutex word and the descriptor status"]
+
+    def body(x, extra=None):
+        b = {"case": x["case"], "level": "library", "observed": {"verdict": x["r"]["verdict"], "oracle": x["oracle"][:6],
+                                                                "model_disagreements": x["dis"][:4], "machine": x["machine"],
+                                                                "trace": x["r"].get("trace_path")},
+             "expected": "property C20 on every timed call of the run (lib_oracle in tools/props/c20.py)"}
+        b.update(extra or {})
+        return b
+
+    if fails:
+        # the most direct witnesses first
+        def rank(x):
+            m = x["oracle"][0]
+            return 0 if ("timeout" in m or "early" in m or "EINVAL" in m) else 1 if "yield" in m else 2
+        fails.sort(key=rank)
+        x = fails[0]
+        ctx.violation("oracle-library", x["oracle"][0], body(x, {"failing_runs": len(fails),
+                                                                "others": [y["oracle"][0] for y in fails[1:8]]}), found=True)
+    elif dis or mfail or missing:
+        # something broke without a failing input so far: search (more seeds, heavier preemption, every family)
+        extra = []
+        for x in (dis + mfail)[:6]:
+            for _ in range(8):
+                t = re.sub(r"^seed \d+", "seed %d" % ctx.rng.rng(1, 1 << 30), x["case"]["text"], flags=re.M)
+                t = re.sub(r"^pswitch \d+", "pswitch %d" % ctx.rng.choice([35, 60, 85]), t, flags=re.M)
+                t = re.sub(r"^workers \d+", "workers %d" % ctx.rng.rng(1, 4), t, flags=re.M)
+                extra.append(dict(x["case"], text=t))
+        extra += [lib_gen_case(ctx.rng, fams[i % 3], pswitch=ctx.rng.choice([60, 85])) for i in range(150)]
+        res2 = lib_run(ctx, exe, mdrv, drv, extra, wd, "s")
+        st["search_runs"] = len(extra)
+        f2 = [x for x in res2 if x["oracle"]]
+        if f2:
+            x = f2[0]
+            ctx.violation("oracle-library", x["oracle"][0], body(x, {"found_by": "search after a broken obligation",
+                                                                    "failing_runs": len(f2)}), found=True)
+        else:
+            if dis:
+                x = dis[0]
+                d = x["dis"][0]
+                ctx.violation("correspondence-library",
+                              "model and library disagree on %d timed call(s) in %d of %d controlled runs; first: %s: library `%s`, "
+                              "model `%s`" % (sum(len(y["dis"]) for y in dis), len(dis), len(res), d["call"], d["library"], d["model"]),
+                              body(x, {"theorem_or_correspondence": "correspondence Time/TimeModel.v (nanosleep / timed / *_ev) <-> "
+                                       "myth_nanosleep_body, myth_mutex_timedlock_body, myth_timedjoin_body on the real library under "
+                                       "the schedule controller", "search": "no oracle failure in %d further runs" % len(extra)}),
+                              found=False)
+            if mfail:
+                x = mfail[0]
+                ctx.violation("machine-correspondence-library", "scheduler-level machine and library disagree on a run with timed calls: "
+                              + x["machine"][:200],
+                              body(x, {"theorem_or_correspondence": "correspondence coq/Machine/MachineModel.v <-> scheduler, on the C20 programs",
+                                       "model_input_tail": x.get("machine_tail")}), found=False)
+            if missing:
+                ctx.violation("coverage-library", "not reached by the controlled runs: " + "; ".join(missing),
+                              {"theorem_or_correspondence": "coverage of the sleep / timed lock / timed join routines by the library tier",
+                               "histogram": st["ids"], "outcomes": st["outcomes"]}, found=False)
+    return st
+
+
+def lib_stats(res):
+    st = {"runs": len(res), "verdicts": {}, "by_family": {}, "by_workers": {}, "by_pswitch": {}, "by_clockstep": {},
+          "timed_calls": 0, "outcomes": {}, "ids": {}, "clock_readings": 0, "attempts": 0,
+          "attempts_after_a_reading": 0, "attempts_preempted_after_reading": 0,
+          "attempts_whose_outcome_changed_after_the_reading": 0,
+          "yields": 0, "yields_with_nonempty_run_queue": 0, "yields_handing_the_worker_over": 0,
+          "deadline_already_past_at_first_reading": 0, "reading_exactly_at_deadline": 0, "success_at_first_attempt": 0,
+          "success_after_polling": 0, "timeouts_after_polling": 0, "sleep_polls_max": 0,
+          "model_calls_compared": 0, "disagreements": 0, "oracle_failures": 0,
+          "machine_moves_replayed": 0, "machine_snapshots_compared": 0, "machine_disagreements": 0,
+          "yields_replayed_as_machine_moves": 0, "trace_lines": 0}
+
+    def inc(d, k, n=1):
+        d[str(k)] = d.get(str(k), 0) + n
+    for x in res:
+        c = x["case"]
+        inc(st["verdicts"], (x["r"]["verdict"] or "none").split()[0])
+        inc(st["by_family"], c["family"])
+        inc(st["by_workers"], c["workers"])
+        inc(st["by_pswitch"], c["pswitch"])
+        inc(st["by_clockstep"], c["step"])
+        st["trace_lines"] += x["facts"]["lines"]
+        for k, v in x["facts"]["ids"].items():
+            if k in LIB_IDS:
+                inc(st["ids"], k, v)
+        for cl in x["calls"]:
+            if cl["kind"] == "stray":
+                continue
+            st["timed_calls"] += 1
+            inc(st["outcomes"], "%s=%s" % (cl["kind"], cl["ret"]))
+            st["clock_readings"] += len(cl["reads"])
+            st["yields"] += len(cl["yields"])
+            st["yields_with_nonempty_run_queue"] += sum(1 for (_, _, dq, _) in cl["yields"] if dq)
+            st["yields_handing_the_worker_over"] += sum(1 for (_, _, dq, nx) in cl["yields"] if nx and nx != "t%d" % cl["T"])
+            if cl["kind"] == "sleep":
+                st["sleep_polls_max"] = max(st["sleep_polls_max"], len(cl["reads"]))
+                continue
+            att, D = cl["attempts"], cl["deadline"]
+            st["attempts"] += len(att)
+            st["attempts_after_a_reading"] += len(cl["pre"])
+            st["attempts_preempted_after_reading"] += sum(1 for p in cl["pre"] if p[2])
+            st["attempts_whose_outcome_changed_after_the_reading"] += sum(1 for p in cl["pre"] if p[3])
+            rd = [ns for _, ns in cl["reads"]]
+            if D is not None and rd:
+                st["deadline_already_past_at_first_reading"] += int(rd[0] > D)
+                st["reading_exactly_at_deadline"] += sum(1 for ns in rd if ns == D)
+            if cl["ret"] == 0:
+                st["success_at_first_attempt" if not rd else "success_after_polling"] += 1
+            elif len(rd) > 1:
+                st["timeouts_after_polling"] += 1
+        st["model_calls_compared"] += len(x["mlines"])
+        st["disagreements"] += len(x["dis"])
+        st["oracle_failures"] += 1 if x["oracle"] else 0
+        m = x["machine"].split()
+        if m and m[0] == "ok":
+            st["machine_moves_replayed"] += int(m[1])
+            st["machine_snapshots_compared"] += int(m[2])
+            st["yields_replayed_as_machine_moves"] += x["putbase"]
+        else:
+            st["machine_disagreements"] += 1
+    return st
 
 
 def replay(ctx, path):
     body = json.load(open(path))
     exe, drv = build(ctx)
-    cases = [body["case"]] if "case" in body else []
+    c = body.get("case")
+    if isinstance(c, dict):                  # library tier: a controlled run
+        lexe = trace.build_interp()
+        x = lib_run(ctx, lexe, mc.build_driver(), drv, [c], os.path.join(ctx.dir, "replay"), "r")[0]
+        print("case:\n" + c["text"])
+        print("impl verdict:", x["r"]["verdict"], "rc", x["r"]["rc"])
+        for cl in x["calls"]:
+            if cl["kind"] != "stray":
+                print("  t%d %-28s ret %s readings %s deadline %s actions %s" % (cl["T"], " ".join(cl["args"]), cl["ret"],
+                                                                            [ns for _, ns in cl["reads"]], cl.get("deadline"), cl["seq"]))
+        print("model disagreements:", x["dis"])
+        print("machine replay:", x["machine"])
+        print("oracle:", x["oracle"] or "property holds on this run")
+        print("trace:", x["r"].get("trace_path"))
+        return 1 if x["oracle"] else 0
+    cases = [c] if c else []
     for c in cases:
         impl, _, _ = vlib.run_lines([exe], [c])
         model, _, _ = vlib.run_lines([drv], [c])
